@@ -24,6 +24,7 @@ use tokio_util::codec::Decoder;
 mod conc;
 mod sock;
 mod standins;
+mod clock;
 
 pub struct TestTimer(pub AtomicU64);
 impl Timer for TestTimer {
@@ -40,6 +41,7 @@ fn main() {
     let args: Vec<String> = std::env::args().collect();
     if args.len() > 1 && args[1] == "conc" { conc::main(&args[2..]); return; }
     if args.len() > 1 && args[1] == "sock" { sock::main(&args[2..]); return; }
+    if args.len() > 1 && args[1] == "clock" { clock::main(&args[2..]); return; }
     if args.len() > 1 && args[1] == "standins" { standins::main(&args[2..]); return; }
     // configuration lines (limit / policy) come first; everything after them is processed line by line, and
     // each processed line is acknowledged with `done` so that a caller can drive the session interactively
